@@ -17,7 +17,7 @@ claim("C05", "model_checking",
 
 claim("C06", "model_checking",
       "exhaustive enumeration of RNG scripts (each of the 14 draws replaced by 1, -1, rho and 0; every pair forced equal; zero pairs; all-zero) x circuits, real prover vs independent reference prover M3 byte for byte plus mask algebra",
-      "For every script the real prover must draw exactly 14 x 64 bytes via fill_bytes in protocol order, its proof must be byte-identical to the naive reference prover M3 (own DFT, schoolbook arithmetic, explicit commitments, literal transcript table), every opening must equal the unmasked value (interpolated from the witness table by definition) plus the prescribed (b0+b1X[+b2X^2])*Z_H mask, changing draw i must move exactly the commitments the protocol order predicts by exactly delta*(P_{n+e}-P_e), and proofs from disjoint scripts share no commitment or evaluation; a zero draw is a draw like any other (exactly 14 draws consumed, proof equal to M3's whenever one is produced).",
+      "For every script the real prover must draw exactly 14 x 64 bytes via fill_bytes in protocol order, its proof must be byte-identical to the naive reference prover M3 (own DFT, schoolbook arithmetic, explicit commitments, literal transcript table), every opening must equal the unmasked value (interpolated from the witness table by definition) plus the prescribed (b0+b1X[+b2X^2])*Z_H mask, changing draw i must move exactly the commitments the protocol order predicts by exactly delta*(P_{n+e}-P_e), and proofs from disjoint scripts share no commitment or evaluation; a zero draw is a draw like any other (exactly 14 draws consumed, proof equal to M3's whenever one is produced); entropy outages of the RNG's fallible interface (3 / 8 refused try_fill_bytes calls at each draw position) leave the proof unchanged.",
       "Trusts M3 (own code, bound to the real prover by byte equality on every script), dusk-bls12_381 arithmetic and merlin. Decides the masking structure for the enumerated scripts and small circuits (n <= 64); the statistical zero-knowledge consequence is not re-proved.",
       "DESIGN.md §5 C06")
 
@@ -41,7 +41,7 @@ claim("C19", "model_checking",
 
 claim("C20", "model_checking",
       "exhaustive enumeration of SRS degrees, trim sizes, polynomial lengths, opening points and batch corruptions, real KZG code vs explicit sums and pairing equations (M4)",
-      "For SRS degrees 1..=8,24 (thorough 1..=24): P_0 = g and e(P_{i+1},h) = e(P_i,x_h) for all i; every trim size keeps a prefix of >= n+7 points or fails exactly beyond capacity; commitments equal the explicit sum, are additive, map zero to the identity and fail beyond the key degree; single, aggregated and batched openings pass iff every claimed evaluation is Horner-true (each position corrupted in turn: wrong evaluation, wrong witness, swapped commitments, point mismatch, empty and length-mismatched batches).",
+      "For SRS degrees 1..=8,24 (thorough 1..=24) and the large parameter set setup(8200) (thorough: 4090, 8200, 12300, 16390): P_0 = g and e(P_{i+1},h) = e(P_i,x_h) for all i; commitments of polynomials of 31..4097 (thorough ..8199) coefficients equal the explicit sum (multi-scalar-multiplication size classes); every trim size keeps a prefix of >= n+7 points or fails exactly beyond capacity; commitments equal the explicit sum, are additive, map zero to the identity and fail beyond the key degree; single, aggregated and batched openings pass iff every claimed evaluation is Horner-true (each position corrupted in turn: wrong evaluation, wrong witness, swapped commitments, point mismatch, empty and length-mismatched batches).",
       "Trusts dusk-bls12_381 group/pairing arithmetic; Fiat-Shamir collisions (~2^-250) assumed not to occur; empty aggregate is outside the statement (informational).",
       "DESIGN.md §5 C20")
 
@@ -77,13 +77,13 @@ claim("C07", "model_checking",
 
 claim("C08", "model_checking",
       "exhaustive enumeration of selector tuples x PI modes x wirings for the general gate (emitted row vs documented row, prover replay) and deviation-bounded exploration (E2, bound 2) of every named component over input tuples, decided by M1",
-      "append_gate over all selector tuples in {0,1,-1}^6 (thorough {0,1,-1,2}^6) x {no PI, PI=0, PI=rho} x 5 wirings emits exactly the documented row (selectors kept, q_arith=1, PI row recorded even when zero); one satisfied and one violated assignment per tuple is replayed on the real prover+verifier; gate_add / gate_mul / append_evaluated_output (q_O in {1,-1,2,0}) / assert_equal / assert_equal_constant / append_constant / append_public / component_boolean / component_select(_one/_zero) over input tuples from F_s: satisfiable iff the documented relation holds, and under every bound-1 and bound-2 deviation of their own allocations every satisfying assignment returns the spec value. Also with aliased operands (one witness on several inputs), with the composer's constant witnesses ZERO / ONE as operands, and after the component was already applied to the same witnesses.",
+      "append_gate over all selector tuples in {0,1,-1}^6 (thorough {0,1,-1,2}^6) x {no PI, PI=0, PI=rho} x 5 wirings emits exactly the documented row (selectors kept, q_arith=1, PI row recorded even when zero); one satisfied and one violated assignment per tuple is replayed on the real prover+verifier; gate_add / gate_mul / append_evaluated_output (q_O in {1,-1,2,0}) / assert_equal / assert_equal_constant / append_constant / append_public / component_boolean / component_select(_one/_zero) over input tuples from F_s: satisfiable iff the documented relation holds, and under every bound-1 and bound-2 deviation of their own allocations every satisfying assignment returns the spec value. Also with aliased operands (one witness on several inputs), with the composer's constant witnesses ZERO / ONE as operands, and after the component was already applied to the same witnesses; constant-carrying components (append_constant, append_public, assert_equal_constant) additionally after every sequence (quick: length <= 2, thorough: <= 3) over a 12-letter alphabet of constant-carrying operations with the same and other constants, the history's allocations being adversary-controlled too.",
       "Documented relations are transcribed from each component's rustdoc; M1 (bound to the prover by C05) decides deviations; values from F_s.",
       "DESIGN.md §5 C08")
 
 claim("C12", "model_checking",
       "deviation-bounded exploration (E2, bound 2 + solved-for forgery triples) of the curve-group components over subgroup point pairs / bits / scalars, decided by M1 against own affine Edwards arithmetic, verdicts replayed on the real prover",
-      "component_add_point / sub / neg / select_identity / select_point over all ordered pairs of {O, G, 2G, -G, rho G} (incl. P+(-P), P+P, P+O), bits {0,1,2,-1}, and component_mul_point over scalars {0,1,2,r_J-1,r_J,r_J+1,2^252-1,rho,2^252,-1}: always satisfiable on subgroup inputs, every satisfying assignment (all bound-1/2 deviations, forged helper x1*y2 with x3,y3 solved from the remaining identities) returns the native group result; select_identity unsatisfiable for non-boolean bits; scalars >= 2^252 unsatisfiable. Also with aliased operands, with Composer::IDENTITY (coordinates are the constant witnesses) as an operand of every component, and after a first application to the same witnesses. mul_point generic deviations are strided (reported in the evidence).",
+      "component_add_point / sub / neg / select_identity / select_point over all ordered pairs of {O, G, 2G, -G, rho G} (incl. P+(-P), P+P, P+O), bits {0,1,2,-1}, and component_mul_point over scalars {0,1,2,r_J-1,r_J,r_J+1,2^252-1,rho,2^252,-1}: always satisfiable on subgroup inputs, every satisfying assignment (all bound-1/2 deviations, forged helper x1*y2 with x3,y3 solved from the remaining identities) returns the native group result; select_identity unsatisfiable for non-boolean bits; scalars >= 2^252 unsatisfiable. Also with aliased operands, with Composer::IDENTITY (coordinates are the constant witnesses) as an operand of every component, and after a first application to the same witnesses; every variable-base addition row of every case is attacked in each operand role the gadget allocated itself with the second root of the row's two identities (off-curve in general). mul_point generic deviations are strided (reported in the evidence).",
       "Own affine twisted-Edwards arithmetic (M5) is the group-law specification; M1 bound to the prover by C05; inputs pinned.",
       "DESIGN.md §5 C12")
 
@@ -95,19 +95,19 @@ claim("C13", "model_checking",
 
 claim("C14", "model_checking",
       "exhaustive enumeration of prover-chosen signed-digit vectors (single-digit deviations, same-integer rewrites, encodings of s+q, s+-r_J, s+2^253) x scalars x generators through the fixed-base seam plus bound-1 allocation deviations, decided by M1",
-      "component_mul_generator and the signed-digit seam over generators {G, G_nums(, rho G)} and scalar witnesses {0,1,2,r_J-1,r_J,r_J+1,2^252-1,2^252,-1,rho}: satisfiable iff the scalar is canonical (< r_J) and the digit vector (three leading zeros) encodes it as an integer; every satisfying assignment returns [s]G; no digit vector encoding s plus a multiple of either modulus, and no bound-1 deviation of accumulators / xy_alpha / canonicity range checks, yields another point. Non-initial states: the scalar witness range-checked beforehand to 64 / 251 / 252 / 253 / 254 bits or already multiplied by the same / another generator (satisfiable iff canonical AND the history's relation holds, through the public entry point and the seam with honest and binary digits). Verdicts of principal vectors replayed on the real prover.",
+      "component_mul_generator and the signed-digit seam over generators {G, G_nums(, rho G)} and scalar witnesses {0,1,2,r_J-1,r_J,r_J+1,2^252-1,2^252,-1,rho}: satisfiable iff the scalar is canonical (< r_J) and the digit vector (three leading zeros) encodes it as an integer; every satisfying assignment returns [s]G; no digit vector encoding s plus a multiple of either modulus, and no bound-1 deviation of accumulators / xy_alpha / canonicity range checks, yields another point. Non-initial states: the scalar witness range-checked beforehand to 64 / 251 / 252 / 253 / 254 bits or already multiplied by the same / another generator (satisfiable iff canonical AND the history's relation holds, through the public entry point and the seam with honest and binary digits), and after every sequence of up to three earlier multiplications over four generators. Verdicts of principal vectors replayed on the real prover.",
       "Own affine Edwards arithmetic (M5) and NAF code; M1 bound to the prover by C05. Quick tier strides digit positions and allocation ordinals (reported).",
       "DESIGN.md §5 C14")
 
 claim("C01", "model_checking",
       "breadth-first exploration of composer operation sequences (E1) and an exhaustive size sweep around every power of two, each state decided by M1 and pushed through the real pipeline on three routes",
-      "Every constraint count within +-8 of 2^k (quick: full window for k <= 6, boundary sizes for k = 7..9; thorough: full window k = 3..12) in shapes {filler, PI on first user row / row c-2 / last row of a full domain / adjacent rows, custom-gate row on the last row} x SRS capacities {minimal admitting, minimal+1, ample} x 2 labels, and every E1 program (all single operations, ordered pairs, depth 3 on a reduced cheap alphabet in thorough; chained and shared operands): when M1 says the instance is satisfied, compilation, proving, the returned public-input vector and verification must all succeed on the direct, compressed and serialized routes.",
+      "Every constraint count within +-8 of 2^k (quick: full window for k <= 6, boundary sizes for k = 7..9; thorough: full window k = 3..12) in shapes {filler, PI on first user row / row c-2 / last row of a full domain / adjacent rows, custom-gate row on the last row} x SRS capacities {minimal admitting, minimal+1, ample} x 2 labels, and every E1 program (all single operations, ordered pairs, depth 3 on a reduced cheap alphabet in thorough; chained and shared operands), and the named circuits of C15 (selector values from the compressor's built-in tables, PI patterns per tuple): when M1 says the instance is satisfied, compilation, proving, the returned public-input vector and verification must all succeed on the direct, compressed and serialized routes.",
       "M1 (bound to the prover by C05) decides which states are satisfied; RNG draws scripted non-zero; sizes above 2^12 and depth > 3 not explored.",
       "DESIGN.md §5 C01")
 
 claim("C15", "model_checking",
       "exhaustive comparison of the compressed and direct compile routes over all E1 program states / named circuits x SRS capacities, plus handcrafted boundary descriptions in a child process with a counting allocator",
-      "For every E1 program state and a named list (unused witnesses, repeated / distinct selector tuples, selectors equal to the built-in table entries, zero-valued PIs, PI on first / last row) and transcript labels of boundary lengths (0..65536, zero / 0xff bytes) at capacities {min-1, min, min+1, ample}: Prover and Verifier bytes from compile_with_compressed equal those of direct compilation and both routes succeed or fail for exactly the same capacities; handcrafted descriptions (constraints = max / max+1, trailing bytes 1..8, each index at bound / bound-1, non-increasing PIs, witness count 1e12, announced lengths 2^31, 1 GiB deflate bomb) are accepted / rejected as specified with peak allocation <= 2 x the valid peak + 1 MiB.",
+      "For every E1 program state and a named list (unused witnesses, repeated / distinct selector tuples, selectors equal to the built-in table entries, zero-valued PIs, PI on first / last row) all 27 public-input patterns (none / non-zero / zero-valued) over three consecutive uses of one selector tuple, and transcript labels of boundary lengths (0..65536, zero / 0xff bytes) at capacities {min-1, min, min+1, ample}: Prover and Verifier bytes from compile_with_compressed equal those of direct compilation and both routes succeed or fail for exactly the same capacities; handcrafted descriptions (constraints = max / max+1, trailing bytes 1..8, each index at bound / bound-1, non-increasing PIs, witness count 1e12, announced lengths 2^31, 1 GiB deflate bomb) are accepted / rejected as specified with peak allocation <= 2 x the valid peak + 1 MiB.",
       "Own MessagePack encoder validated by byte-identical re-encoding of real descriptions; capacity rule stated independently.",
       "DESIGN.md §5 C15")
 
